@@ -14,7 +14,7 @@ func c11(e *Env) {
 	r.Rule("every type × canonical values (as C01, incl. non-empty lists, long prefixed texts, every registered union member at least once) × EVERY cut position k in 0..len-1 of the valid image (images longer than 4 KiB: every token boundary ±1 plus 256 random offsets). distinct_nontrivial = distinct (image hash) with at least one cut")
 	r.Explain("Oracle: Decode(image[:k]) into a fresh receiver returns a non-nil error and does not panic. Soundness: with C07 (exact consumption) a decoder that accepted image[:k] would have consumed at most k < len bytes on the full image too, so a correct tree cannot accept a strict prefix; types whose image is empty contribute no cuts.")
 	types := e.Types()
-	n := e.N(12, 150)
+	n := e.N(40, 600)
 	acc := newFeatAcc()
 	var empty int64
 	e.Par(len(types), func(i int) {
